@@ -80,18 +80,22 @@ static int compression_read(struct conn_interface *intf, void *buff, size_t len)
 {
     xmpp_conn_t *conn = intf->conn;
     struct xmpp_compression *comp = conn->compression.state;
-    void *dbuff = buff;
-    size_t dlen = len;
-    if (comp->decompression.stream.next_in != NULL) {
-        return _conn_decompress(comp, 0, buff, len);
+    int ret;
+    for (;;) {
+        if (comp->decompression.stream.next_in != NULL) {
+            ret = _conn_decompress(comp, 0, buff, len);
+        } else {
+            ret = comp->next.read(intf, comp->decompression.buffer,
+                                  STROPHE_COMPRESSION_BUFFER_SIZE);
+            if (ret <= 0)
+                return ret;
+            ret = _conn_decompress(comp, ret, buff, len);
+        }
+        /* 0 means "closed" to the caller: if the input did not yield any
+         * plaintext yet, ask the lower layer for more instead */
+        if (ret != 0 || conn->state != XMPP_STATE_CONNECTED)
+            return ret;
     }
-    dbuff = comp->decompression.buffer;
-    dlen = STROPHE_COMPRESSION_BUFFER_SIZE;
-    int ret = comp->next.read(intf, dbuff, dlen);
-    if (ret > 0) {
-        return _conn_decompress(comp, ret, buff, len);
-    }
-    return ret;
 }
 
 static int _try_compressed_write_to_network(xmpp_conn_t *conn, int force)
